@@ -348,6 +348,155 @@ def json_write(data, fmt):
 
 
 # ---------------------------------------------------------------------------------------------
+# independent JSON writer with free choices (for the JSON reader model and parseTextgridStr): key order, white space,
+# escapes (\uXXXX in either case, surrogate pairs, \/, short escapes), numeral styles, extra and duplicate keys.
+# Written from RFC 8259; shares nothing with json.dumps.
+# ---------------------------------------------------------------------------------------------
+JSON_WS = ["", "", " ", "\n", "\t", "\r\n", "  ", "\n    "]
+SHORT_ESC = {'"': '\\"', '\\': '\\\\', '\n': '\\n', '\r': '\\r', '\t': '\\t', '\b': '\\b', '\f': '\\f', '/': '\\/'}
+
+
+def _hexu(rnd, o):
+    return ("\\u%04x" if rnd.random() < 0.5 else "\\u%04X") % o
+
+
+def jstr_variant(s, rnd, p=0.25):
+    out = ['"']
+    for ch in s:
+        o = ord(ch)
+        must = o < 0x20 or ch in '"\\'
+        k = rnd.random()
+        if ch in SHORT_ESC and ((must and k < 0.7) or (ch == "/" and k < 0.5)):
+            out.append(SHORT_ESC[ch])
+        elif must or k < p:
+            if o >= 0x10000:
+                o -= 0x10000
+                out.append(_hexu(rnd, 0xD800 + (o >> 10)) + _hexu(rnd, 0xDC00 + (o & 0x3FF)))
+            else:
+                out.append(_hexu(rnd, o))
+        else:
+            out.append(ch)
+    out.append('"')
+    return "".join(out)
+
+
+def jnum_variant(x, rnd):
+    """some JSON numeral denoting exactly the float x (or the int x)"""
+    if isinstance(x, int):
+        return str(x)
+    k = rnd.random()
+    if k < 0.5:
+        return repr(x)
+    if k < 0.65 and x.is_integer() and abs(x) < 1e15:
+        return str(int(x))
+    if k < 0.8:
+        return "%.17e" % x
+    if k < 0.9:
+        return ("%.17e" % x).replace("e", "E")
+    return ("%.17e" % x).replace("e+", "e")
+
+
+def jdoc_variant(v, rnd):
+    """v: nested ("obj", [(key, v)...]) | ("arr", [v...]) | ("str", s) | ("num", x) | ("raw", text)"""
+    ws = lambda: rnd.choice(JSON_WS)
+    k, x = v
+    if k == "str":
+        return jstr_variant(x, rnd)
+    if k == "num":
+        return jnum_variant(x, rnd)
+    if k == "raw":
+        return x
+    if k == "arr":
+        return "[" + ws() + ("," + ws()).join(jdoc_variant(e, rnd) + ws() for e in x) + "]"
+    return "{" + ws() + ("," + ws()).join(jstr_variant(key, rnd) + ws() + ":" + ws() + jdoc_variant(e, rnd) + ws() for key, e in x) + "}"
+
+
+JUNK = [("raw", "null"), ("raw", "true"), ("raw", "false"), ("raw", "[]"), ("raw", "{}"), ("num", 7), ("str", "junk"),
+        ("arr", [("num", 1.5), ("obj", [("a", ("raw", "null"))])])]
+
+
+def json_variant(data, fmt, rnd, extras=True):
+    """an independently written document of the given schema with the content of `data`"""
+    def members(ms, dup_ok=True, other=()):
+        # `other`: keys that mean something elsewhere (the other schema, the enclosing level) and must be ignored here
+        ms = list(ms)
+        rnd.shuffle(ms)
+        if extras and rnd.random() < 0.3:
+            ms.insert(rnd.randint(0, len(ms)), (rnd.choice(["comment", "x", "Start", "class ", ""] + list(other)), rnd.choice(JUNK)))
+        if extras and dup_ok and rnd.random() < 0.2:
+            i = rnd.randrange(len(ms))
+            ms.insert(rnd.randint(0, i), (ms[i][0], rnd.choice(JUNK)))      # an earlier duplicate: the later value wins
+        return ("obj", ms)
+
+    def entries(t):
+        return ("arr", [("arr", [("num", x) for x in e[:-1]] + [("str", e[-1])]) for e in t["es"]])
+    cls = lambda t: ("str", "IntervalTier" if t["k"] == "I" else "TextTier")
+    if fmt == "json":
+        tiers = ("obj", [(t["name"], members([("type", cls(t)), ("entries", entries(t))], other=("xmin", "xmax", "name", "class", "start", "end")))
+                         for t in data["tiers"]])
+        doc = members([("start", ("num", data["lo"])), ("end", ("num", data["hi"])), ("tiers", tiers)], other=("xmin", "xmax", "type", "entries"))
+    else:
+        tiers = ("arr", [members([("class", cls(t)), ("name", ("str", t["name"])), ("xmin", ("num", t["lo"])), ("xmax", ("num", t["hi"])),
+                                  ("entries", entries(t))], other=("type", "start", "end", "tiers")) for t in data["tiers"]])
+        # a stray top-level key "start" would switch parseTextgridStr to the other schema: not among the extras
+        doc = members([("xmin", ("num", data["lo"])), ("xmax", ("num", data["hi"])), ("tiers", tiers)], other=("end", "type", "entries", "class", "name"))
+    return rnd.choice(JSON_WS) + jdoc_variant(doc, rnd) + rnd.choice(JSON_WS)
+
+
+def json_break(text, rnd):
+    """a small mutation of a JSON text: mostly invalid JSON or a document off the schemas"""
+    k = rnd.random()
+    i = rnd.randrange(len(text))
+    if k < 0.3:
+        return text[:i] + text[i + 1:]
+    if k < 0.6:
+        return text[:i] + rnd.choice(list('{}[],:"\\ 01.eE-+xtfn\n\t/u')) + text[i:]
+    if k < 0.75:
+        return text[:i] + rnd.choice(list('{}[],:"\\ 01.eE-+xtfn\n\t/u')) + text[i + 1:]
+    if k < 0.85:
+        return text[:i]
+    return text.replace(rnd.choice(['"entries"', '"tiers"', '"xmin"', '"start"', '"name"', '"class"', '"type"', "IntervalTier", "[", "]"]),
+                        rnd.choice(['"x"', "null", "1", "[]", "{}", '"TextTier"', "[[", ""]), 1)
+
+
+STR_ATOMS = [chr(i) for i in range(0x20)] + [chr(i) for i in (0x7f, 0x80, 0x9f, 0xa0, 0xe9, 0x2028, 0x2029, 0xfeff, 0xfffd, 0xffff, 0xd7ff, 0xe000,
+                                                                0x10000, 0x1d11e, 0x10ffff)] + \
+    ['"', "\\", "/", "a", " ", "\\u0041", "\\n", "u", "'", "<", "&"]
+
+
+def rand_jstring(rnd):
+    return "".join(rnd.choice(STR_ATOMS) for _ in range(rnd.randint(0, 8)))
+
+
+NUM_WORDS = ["0", "-0", "-0.0", "0.0", "1", "-1", "10", "01", "-01", "00", "1.", ".5", "-.5", "1.5", "1.50", "1e5", "1E5", "1e+5", "1e-5", "1e", "1e+", "1e-",
+             "1.e5", "1.5e5", "1.5E-05", "-", "+1", "--1", "1-", "1 ", " 1", "1\n", "NaN", "nan", "Infinity", "-Infinity", "inf", "-inf", "0x10", "1_0", "١٢",
+             "1e05", "1e+05", "5e-324", "1.7976931348623157e+308", "1e400", "123456789012345678901234567890", "0e0", "0E-0", "-0e+0", "0.", "0.e1", "1.2.3",
+             "1e5.5", "1ee5", "", "e5", "true", "1,", "1]"]
+
+
+def rand_numword(rnd):
+    if rnd.random() < 0.5:
+        return rnd.choice(NUM_WORDS)
+    return "".join(rnd.choice("0123456789.eE+-") for _ in range(rnd.randint(1, 7)))
+
+
+def rand_jdoc(rnd, depth=0):
+    k = rnd.random()
+    if depth > 3 or k < 0.35:
+        c = rnd.random()
+        if c < 0.3:
+            return ("str", rand_jstring(rnd))
+        if c < 0.6:
+            return ("raw", rnd.choice(["0", "-0", "1", "-12", "1.5", "1e5", "1E-05", "2.50e+3", "0.0", "-0.0", "NaN", "Infinity", "-Infinity", "1e400",
+                                       "123456789012345678901234567890", "5e-324"]))
+        return ("raw", rnd.choice(["null", "true", "false", "[]", "{}"]))
+    if k < 0.65:
+        return ("arr", [rand_jdoc(rnd, depth + 1) for _ in range(rnd.randint(1, 4))])
+    keys = ["a", "b", "a", "", "é", "k\n", "start", "\U0001d11e"]
+    return ("obj", [(rnd.choice(keys), rand_jdoc(rnd, depth + 1)) for _ in range(rnd.randint(1, 4))])
+
+
+# ---------------------------------------------------------------------------------------------
 # comparisons
 # ---------------------------------------------------------------------------------------------
 def time_ok(orig, got):
